@@ -3,7 +3,7 @@ from rv.gen import circuits as G
 from rv.oracle.sim import Net
 
 RULE = (
-    "random histories of 5..40 calls of add (default flags / uid=True), connect, disconnect, remove, set_output, add_blackbox, add_subcircuit, fill_blackbox over a "
+    "random histories of 5..40 calls of add (default flags / uid=True / uid=True with allow_redefinition=True), connect (names as str, list, tuple, set, dict keys, one-shot iterator), disconnect, remove, set_output, add_blackbox, add_subcircuit (strip_io default / False), fill_blackbox, uid storms (12..16 requests of one name, removals, more requests) over a "
     "universe of ~12 names (existing nodes, fresh, duplicate, self-referential, digit-leading, dotted, non-existent), all node types incl. unsupported ones, str and list "
     "arguments, starting from the empty circuit or a generated circuit with blackboxes; roughly half of the calls are illegal. After EVERY call (returned or raised) the wiring "
     "invariants of the property are evaluated on the raw graph; a raising call must not add an edge and must raise ValueError for illegal type/name/connection arguments; "
@@ -55,6 +55,11 @@ def gen(rng, ctx):
         base = rng.choice(["a", "g", "x_y"])
         for j in range(rng.randint(12, 16)):
             ops.append({"op": "add", "n": base, "type": rng.choice(["buf", "and", "input"]), "uid": True, "output": False})
+        # the circuit shrinks, then more names are requested
+        for _ in range(rng.randint(0, 3)):
+            ops.append({"op": "remove", "ns": rng.choice(existing + [base, f"{base}_{rng.randint(0, 12)}", f"{base}_{rng.randint(0, 12)}"])})
+            for _ in range(rng.randint(1, 3)):
+                ops.append({"op": "add", "n": base, "type": rng.choice(["buf", "or", "input"]), "uid": True, "output": rng.random() < 0.3, "redef": rng.random() < 0.2})
         return {"start": start, "children": children, "ops": ops, "storm": True}
     live = list(existing)
     insts = list(start["bbs"]) if start else []
@@ -133,6 +138,8 @@ def gen(rng, ctx):
             t = rng.choice(TYPES) if rng.random() < 0.92 else rng.choice(BAD_TYPES)
             n = rng.choice(names) if rng.random() < 0.75 else pick()
             op = {"op": "add", "n": n, "type": t, "uid": k == "add_uid", "output": rng.random() < 0.3}
+            if k == "add_uid" and rng.random() < 0.2:
+                op["redef"] = True  # uid=True together with allow_redefinition=True: uid still decides
             if rng.random() < 0.5:
                 op["fanin"] = picks(2)
             if rng.random() < 0.4:
@@ -142,6 +149,8 @@ def gen(rng, ctx):
             ltype.setdefault(n, t)
         elif k == "connect":
             ops.append({"op": "connect", "us": picks(), "vs": picks()})
+            if rng.random() < 0.25:
+                ops[-1]["rep"] = rng.choice(["tuple", "set", "frozenset", "iter", "gen", "dictkeys"])
         elif k == "disconnect":
             ops.append({"op": "disconnect", "us": picks(), "vs": picks()})
         elif k == "remove":
@@ -181,11 +190,32 @@ def gen(rng, ctx):
                 for o_ in outs_:
                     conns[o_] = tgt  # each legal alone, illegal together
             ops.append({"op": "add_subcircuit", "child": ci, "name": name, "connections": conns})
+            if rng.random() < 0.2:
+                ops[-1]["strip_io"] = False
             live += [f"{name}_{n}" for n, _, _ in ch["nodes"]]
         else:
             name = rng.choice(insts) if insts and rng.random() < 0.8 else rng.choice(["u", "v", "ghost"])
             ops.append({"op": "fill_blackbox", "name": name, "child": rng.randrange(len(children))})
     return {"start": start, "children": children, "ops": ops}
+
+
+def as_rep(x, rep):
+    """The same collection of names in another legal representation (str arguments stay as they are)."""
+    if isinstance(x, str):
+        return x
+    if rep == "tuple":
+        return tuple(x)
+    if rep == "set":
+        return set(x)
+    if rep == "frozenset":
+        return frozenset(x)
+    if rep == "iter":
+        return iter(list(x))
+    if rep == "gen":
+        return (n for n in list(x))
+    if rep == "dictkeys":
+        return dict.fromkeys(x).keys()
+    return x
 
 
 def state(c):
@@ -257,12 +287,20 @@ def check(case, ctx):
                 kw["fanout"] = op["fanout"]
             if op["uid"]:
                 kw["uid"] = True
+            if op.get("redef"):
+                kw["allow_redefinition"] = True
+                ctx.count("add_uid_with_allow_redefinition")
             ok, r = ctx.call(c.add, op["n"], op["type"], output=op["output"], **kw)
             label = f"add({op['n']!r},{op['type']!r},{kw})"
             key = "add_uid" if op["uid"] else "add"
         elif k == "connect":
-            ok, r = ctx.call(c.connect, op["us"], op["vs"])
-            label = f"connect({op['us']!r},{op['vs']!r})"
+            us, vs = op["us"], op["vs"]
+            rep = op.get("rep")
+            if rep:
+                us, vs = as_rep(us, rep), as_rep(vs, rep)
+                ctx.count(f"connect_rep:{rep}")
+            ok, r = ctx.call(c.connect, us, vs)
+            label = f"connect({op['us']!r},{op['vs']!r}{', given as ' + rep if rep else ''})"
             key = k
         elif k == "disconnect":
             ok, r = ctx.call(c.disconnect, op["us"], op["vs"])
@@ -289,8 +327,12 @@ def check(case, ctx):
             if ok:
                 removed_by_caller -= {f"{op['name']}.{p}" for p in b["inputs"] + b["outputs"]}
         elif k == "add_subcircuit":
-            ok, r = ctx.call(c.add_subcircuit, kids[op["child"]], op["name"], dict(op["connections"]))
-            label = f"add_subcircuit(ch{op['child']},{op['name']!r},{op['connections']})"
+            kw = {}
+            if "strip_io" in op:
+                kw["strip_io"] = op["strip_io"]
+                ctx.count("add_subcircuit_strip_io_false")
+            ok, r = ctx.call(c.add_subcircuit, kids[op["child"]], op["name"], dict(op["connections"]), **kw)
+            label = f"add_subcircuit(ch{op['child']},{op['name']!r},{op['connections']},{kw})"
             key = k
         else:
             ok, r = ctx.call(c.fill_blackbox, op["name"], kids[op["child"]])
@@ -319,6 +361,8 @@ def check(case, ctx):
                     ghosts = True
                 if ghosts and isinstance(r, (KeyError,)):
                     ctx.count(f"note:{key}_nonexistent_{type(r).__name__}")
+                elif k == "connect" and op.get("rep") in ("iter", "gen") and isinstance(r, TypeError):
+                    ctx.count("note:connect_one_shot_iterable_TypeError")  # len() of an iterator: refused, nothing added
                 else:
                     ctx.violation(f"rejected_{key}_exception_type", f"{what}: rejected with {type(r).__name__} instead of ValueError", extra={"step": step, "site": key})
                     return
@@ -346,7 +390,7 @@ def gates(counters, table, tier):
         for o in ("ok", "rejected"):
             if counters.get(f"{k}:{o}", 0) < 5:
                 out.append(f"{k} never {o} ({counters.get(f'{k}:{o}', 0)})")
-    for k in ("disconnect:ok", "remove:ok", "set_output:ok", "uid_renamed", "uid_storm"):
+    for k in ("disconnect:ok", "remove:ok", "set_output:ok", "uid_renamed", "uid_storm", "add_uid_with_allow_redefinition", "add_subcircuit_strip_io_false", "connect_rep:iter", "connect_rep:set", "connect_rep:tuple"):
         if counters.get(k, 0) < 5:
             out.append(f"{k} seen {counters.get(k, 0)} times")
     if counters.get("calls", 0) < 10000 and tier == "quick":
